@@ -299,6 +299,16 @@ def stepSeq (st : St) (op : String) (ins impl : List String) : Option (St × Str
     let g ← runP pSvcConf ins
     -- the harness only sends valid schedules and known service IDs: the handler answers 200
     pure (some (s.step (.update g)), verdict (impl == ["200"]) none "200")
+  | "C18.sload" => do
+    -- start-up: the file decoded over the default configuration; afterwards the global configuration is `g`
+    let s ← st
+    let g ← runP pSvcConf ins
+    pure (some (s.step (.update g)), verdict (impl == ["ok"]) none "ok")
+  | "C18.supdnos" => do
+    -- an update without a schedule installs EmptyWeekly()
+    let s ← st
+    let n ← runP pNat ins
+    pure (some (s.step (.update ⟨emptyWeekly, n⟩)), verdict (impl == ["200"]) none "200")
   | "C18.sset" => do
     let s ← st
     let n ← runP pNat ins
@@ -306,8 +316,10 @@ def stepSeq (st : St) (op : String) (ins impl : List String) : Option (St × Str
   | "C18.scli" => do
     let s ← st
     let c ← runP (do
-      let has ← pBool; let c ← pSvcConf
-      pure (if has then some c else none)) ins
+      let has ← pNat; let c ← pSvcConf
+      -- 0: no own services; 1: own schedule; 2: own services, no schedule of its own = EmptyWeekly()
+      if has > 2 then failure
+      pure (if has == 0 then none else if has == 2 then some ⟨emptyWeekly, c.nIDs⟩ else some c)) ins
     pure (some (s.step (.client c)), verdict (impl == ["ok"]) none "ok")
   | "C18.sreq" => do
     let s ← st
@@ -335,15 +347,92 @@ def stepSeq (st : St) (op : String) (ins impl : List String) : Option (St × Str
     | _ => none
   | _ => none
 
-def step (st : St) (line : String) : St × String :=
+/-! aliasing blocks (C18.areset …): several schedule values, decode INTO a pre-filled target -/
+
+def pWeekly : P Weekly := do
+  let loc ← pHex; let days ← pWeek pRange
+  pure ⟨loc, days⟩
+
+def pMany {α} : Nat → P α → P (List α)
+  | 0, _ => pure []
+  | k + 1, p => do let x ← p; let xs ← pMany k p; pure (x :: xs)
+
+/-- `E` 14 ints, probe bits, json, yaml; `S` n, n × (loc, 14 ints) -/
+def pAliasObs : P AliasObs := do
+  let e ← tok
+  if e != "E" then failure
+  let days ← pWeek pRange
+  let probes ← tok
+  let _j ← pHex; let _y ← pHex
+  let sTag ← tok
+  if sTag != "S" then failure
+  let n ← pNat
+  let slots ← pMany n pWeekly
+  pure ⟨days, probes.toList.map (· == '1'), slots⟩
+
+def showAliasObs (nProbes : Nat) (slots : List Weekly) : List String :=
+  let e := emptyWeekly
+  ["E"] ++ showDays e.days ++ [String.ofList (List.replicate nProbes '0'),
+    (match (encodeJSON e).bind renderJSON with | some b => hexEncode b | none => "unrenderable"),
+    (match (encodeYAML e).bind renderYAML with | some b => hexEncode b | none => "unrenderable"),
+    "S", toString slots.length] ++ slots.flatMap (fun w => hexEncode w.loc :: showDays w.days)
+
+def stepAlias (slots : List Weekly) (op : String) (ins impl : List String) : Option (List Weekly × String) := do
+  -- the operation and (for decodes) the model's result
+  let (aop, resStr, implObs) ← (match op with
+    | "C18.anew" =>
+      (match ins with
+       | ["empty"] => some (AliasOp.newEmpty, ([] : List String), impl)
+       | ["full"] => some (AliasOp.newFull, [], impl)
+       | ["clone", k] => k.toNat?.map (fun k => (AliasOp.clone k, [], impl))
+       | _ => none)
+    | "C18.adec" =>
+      (match ins with
+       | slot :: fmt :: rest => do
+         let i ← slot.toNat?
+         let yaml ← (if fmt == "yaml" then some true else if fmt == "json" then some false else none)
+         let d ← runP pDecodeIn rest
+         let tzOK : Bytes → Bool := fun n => (n == d.c.tz && d.tzOK) || (n == locName d.c.tz && d.tzOK)
+         let res : Except DErr Weekly :=
+           if !d.parseOK then .error .tz      -- any error: the slot keeps its value
+           else decodeConf tzOK (if yaml then yamlAbsentAsZero d.c else d.c)
+         let rs := match res with | .ok _ => "ok" | .error _ => "err"
+         match impl with
+         | r :: obs => if r == "ok" || r == "err" then some (AliasOp.decodeInto i res, [rs], obs) else none
+         | [] => none
+       | _ => none)
+    | _ => none)
+  let slots' := aliasStep slots aop
+  let obs ← runP pAliasObs implObs
+  let model := tabs (resStr ++ showAliasObs obs.emptyProbes.length slots')
+  let spec := (specAlias slots aop.target obs).map (fun r => r)
+  pure (slots', verdict (model == tabs impl) spec model)
+
+structure DSt where
+  req : St := none
+  alias : Option (List Weekly) := none
+
+def step (st : DSt) (line : String) : DSt × String :=
   let fs := splitTab line
   match fs with
   | op :: rest =>
     match splitArrow rest with
     | some (ins, impl) =>
-      if op.startsWith "C18.s" then
-        match stepSeq st op ins impl with
-        | some (st', out) => (st', out)
+      if op == "C18.areset" then
+        -- "polluted": an earlier block (which reported it) left package-level state behind; this block is skipped
+        if impl == ["polluted"] then ({ st with alias := none }, verdict true none "polluted") else
+        ({ st with alias := some [] }, if ins.isEmpty then verdict (impl == ["ok"]) none "ok" else "bad-op")
+      else if op == "C18.anew" || op == "C18.adec" then
+        if impl.head? == some "PANIC" then (st, verdict false (some "C18.alias-panic") "-") else
+        if impl == ["skipped"] && st.alias.isNone then (st, verdict true none "skipped") else
+        match st.alias.bind (fun sl => stepAlias sl op ins impl) with
+        | some (sl', out) => ({ st with alias := some sl' }, out)
+        | none => (st, "bad-op")
+      else if op.startsWith "C18.s" then
+        if op == "C18.sreset" && impl == ["polluted"] then ({ st with req := none }, verdict true none "polluted") else
+        if impl == ["skipped"] && st.req.isNone then (st, verdict true none "skipped") else
+        match stepSeq st.req op ins impl with
+        | some (r', out) => ({ st with req := r' }, out)
         | none => (st, "bad-op")
       else
       let r := match op with
@@ -363,4 +452,4 @@ def step (st : St) (line : String) : St × String :=
     | none => (st, "bad-op")
   | [] => (st, "bad-op")
 
-def main : IO Unit := run step none
+def main : IO Unit := run step {}
